@@ -297,6 +297,21 @@ pub(crate) fn family(name: &str) -> Vec<TxT> {
             tx("lock-3-br1-by-w", &W, vec![lock(&BR1, 3)]),
             tx("unlock-br2-9-e1", &W, vec![unlock(&BR2, &ALICE, 9, "e1")]),
         ],
+        // validator updates on a chain that has not reached Aspen (legacy validator-set storage)
+        "validators-pre-aspen" => vec![
+            tx("add-dave-5", &SUDO, vec![validator_update(&DAVE, 5)]),
+            tx("remove-dave", &SUDO, vec![validator_update(&DAVE, 0)]),
+            tx("remove-alice", &SUDO, vec![validator_update(&ALICE, 0)]),
+            tx("remove-bob", &SUDO, vec![validator_update(&BOB, 0)]),
+            tx("remove-carol", &SUDO, vec![validator_update(&CAROL, 0)]),
+            tx("alice-power-1", &SUDO, vec![validator_update(&ALICE, 1)]),
+            tx(
+                "bundle-add-dave-remove-dave",
+                &SUDO,
+                vec![validator_update(&DAVE, 3), validator_update(&DAVE, 0)],
+            ),
+            tx("add-dave-by-alice", &ALICE, vec![validator_update(&DAVE, 9)]),
+        ],
         // chain-wide authorities and validator set
         "authority" => vec![
             tx("add-dave-5", &SUDO, vec![validator_update(&DAVE, 5)]),
@@ -382,8 +397,14 @@ pub(crate) struct ExecOutcome {
 
 impl TModel {
     pub(crate) async fn build(property: &'static str, family_name: &'static str, with_replay: bool) -> Self {
-        let mut chain = Chain::new().await;
-        chain.setup_bridges_and_fee_asset().await;
+        let pre_aspen = family_name == "validators-pre-aspen";
+        let mut chain = if pre_aspen {
+            Chain::new_pre_aspen().await
+        } else {
+            let mut chain = Chain::new().await;
+            chain.setup_bridges_and_fee_asset().await;
+            chain
+        };
         if family_name == "bridge" {
             // non-initial state: funds already locked, one withdrawal event already used
             let txs = vec![
@@ -401,13 +422,7 @@ impl TModel {
         let storage = chain.fixture.storage();
         let mut base = chain.begin_block_and_detach().await;
         let base_dump = Arc::new(dump_state(&base).await);
-        let mut validators = BTreeMap::new();
-        let mut stream = base.get_validators();
-        while let Some(v) = stream.next().await {
-            let v = v.expect("validator entry");
-            validators.insert(*v.verification_key.address_bytes(), v.power);
-        }
-        drop(stream);
+        let validators = stored_validators(&base).await.0;
         let _ = &mut base;
         Self {
             property,
@@ -1042,23 +1057,21 @@ impl TModel {
             }
         }
         if comet.is_empty() {
+            // the legacy (pre-Aspen) path is named in the signature so that the listed known
+            // finding cannot hide the same symptom on the current storage layout
+            let legacy = self.family == "validators-pre-aspen";
             return Some(self.viol(
                 "C14",
                 "updates-applicable",
-                "update batch empties the validator set".into(),
+                if legacy {
+                    "pre-Aspen chain: update batch empties the validator set".into()
+                } else {
+                    "update batch empties the validator set".into()
+                },
                 "applying the returned updates leaves CometBFT without validators".into(),
             ));
         }
-        let (stored, count) = block_on(async {
-            let mut stored = BTreeMap::new();
-            let mut stream = post_state.get_validators();
-            while let Some(v) = stream.next().await {
-                let v = v.expect("validator entry");
-                stored.insert(*v.verification_key.address_bytes(), v.power);
-            }
-            drop(stream);
-            (stored, post_state.get_validator_count().await.unwrap_or(u64::MAX))
-        });
+        let (stored, count) = block_on(stored_validators(post_state));
         if stored != comet {
             let render = |m: &BTreeMap<[u8; 20], u32>| m.iter().map(|(a, p)| format!("{}:{p}", name_of(a))).collect::<Vec<_>>();
             return Some(self.viol(
@@ -1078,6 +1091,27 @@ impl TModel {
         }
         None
     }
+}
+
+/// The validator set the application stores (legacy single-value set before Aspen, one entry per
+/// validator plus a count after it) and its count (the set size before Aspen).
+async fn stored_validators(state: &StateDelta<Snapshot>) -> (BTreeMap<[u8; 20], u32>, u64) {
+    let mut stored = BTreeMap::new();
+    if crate::checked_actions::use_pre_aspen_validator_updates(state).await.expect("upgrade status") {
+        let set = state.pre_aspen_get_validator_set().await.expect("legacy validator set");
+        for v in set.updates() {
+            stored.insert(*v.verification_key.address_bytes(), v.power);
+        }
+        let n = stored.len() as u64;
+        return (stored, n);
+    }
+    let mut stream = state.get_validators();
+    while let Some(v) = stream.next().await {
+        let v = v.expect("validator entry");
+        stored.insert(*v.verification_key.address_bytes(), v.power);
+    }
+    drop(stream);
+    (stored, state.get_validator_count().await.unwrap_or(u64::MAX))
 }
 
 fn bridge_admin_authority<'a>(pre: &Dump, b: &str, signer: &[u8; 20]) -> Option<(&'a str, Option<[u8; 20]>)> {
@@ -1408,5 +1442,5 @@ fn verif_c04_tlevel() {
 
 #[test]
 fn verif_c14_tlevel() {
-    run_tlevel("C14", "tlevel", &["authority"], 5, 8, false);
+    run_tlevel("C14", "tlevel", &["authority", "validators-pre-aspen"], 5, 8, false);
 }
